@@ -47,3 +47,114 @@ func Harness_C16_q_roundtrip_one() {
 	verif.Assert(len(back.GetBytes(q)) == 0, "other-tag-empty")
 	verif.Reach("end")
 }
+
+// Several sets with symbolic (possibly equal) tags: serialise, compare with the reference
+// encoding, parse back and compare, for a symbolic query tag, with the concatenation of
+// the values set for that tag in order.
+func Harness_C16_q_roundtrip_multi() {
+	lens := []int{0, 1, 255, 256}
+	k := 3
+	if verif.Thorough() {
+		lens = []int{0, 1, 254, 255, 256, 511}
+	}
+	c := NewTLV8Container()
+	var ref []byte
+	tags := make([]byte, k)
+	vals := make([][]byte, k)
+	for i := 0; i < k; i++ {
+		n := lens[verif.Choice("len"+string(rune('0'+i)), len(lens))]
+		tags[i] = verif.U8("tag" + string(rune('0'+i)))
+		vals[i] = verif.Bytes("val"+string(rune('0'+i)), n)
+		c.SetBytes(tags[i], vals[i])
+		ref = append(ref, refEncode(tags[i], vals[i])...)
+	}
+	enc := c.BytesBuffer().Bytes()
+	verif.Assert(verif.Eq(enc, ref), "wire-equals-reference")
+	back, err := NewTLV8ContainerFromReader(bytes.NewBuffer(enc))
+	verif.Assert(err == nil, "reparse-ok")
+	if err != nil {
+		return
+	}
+	q := verif.U8("qtag")
+	exp := []byte{}
+	for i := 0; i < k; i++ {
+		if tags[i] == q {
+			exp = append(exp, vals[i]...)
+		}
+	}
+	verif.Assert(verif.Eq(c.GetBytes(q), exp), "get-before-serialise")
+	verif.Assert(verif.Eq(back.GetBytes(q), exp), "get-after-reparse")
+	if len(exp) > 0 {
+		verif.Assert(back.GetByte(q) == exp[0], "getbyte-first")
+	}
+	verif.Reach("end")
+}
+
+type refItem struct {
+	tag byte
+	val []byte
+}
+
+// refParse is the reference TLV8 parser: items until the input is exhausted; an input that
+// ends inside an item is an error.
+func refParse(raw []byte) (items []refItem, ok bool) {
+	for len(raw) > 0 {
+		if len(raw) < 2 {
+			return nil, false
+		}
+		tag, n := raw[0], int(raw[1])
+		raw = raw[2:]
+		if len(raw) < n {
+			return nil, false
+		}
+		items = append(items, refItem{tag, raw[:n]})
+		raw = raw[n:]
+	}
+	return items, true
+}
+
+// Arbitrary bytes as parser input: never panics, and either errors or yields exactly the
+// items a reference parser finds (so every value is a sub-slice of the input).
+func Harness_C16_q_parse_arbitrary() {
+	max := 8
+	if verif.Thorough() {
+		max = 12
+	}
+	n := verif.Choice("n", max+1)
+	raw := verif.Bytes("raw", n)
+	verif.MakeCap(max)
+	var cont Container
+	var err error
+	p := verif.Panics(func() {
+		cont, err = NewTLV8ContainerFromReader(bytes.NewBuffer(append([]byte{}, raw...)))
+	})
+	verif.Assert(!p, "nopanic-parse")
+	if p {
+		return
+	}
+	items, ok := refParse(raw)
+	verif.Assert((err == nil) == ok, "error-iff-truncated")
+	if err != nil {
+		verif.Reach("end")
+		return
+	}
+	got := cont.(*tlv8Container).Items
+	verif.Assert(len(got) == len(items), "item-count")
+	if len(got) != len(items) {
+		return
+	}
+	for i := range got {
+		verif.Assert(got[i].tag == items[i].tag, "item-tag")
+		verif.Assert(int(got[i].length) == len(items[i].val), "item-length")
+		verif.Assert(verif.Eq(got[i].value, items[i].val), "item-value-is-input-slice")
+	}
+	// getters on arbitrary parsed input do not panic either
+	q := verif.U8("qtag")
+	p2 := verif.Panics(func() {
+		_ = cont.GetBytes(q)
+		_ = cont.GetByte(q)
+		_ = cont.GetString(q)
+	})
+	verif.Assert(!p2, "nopanic-getters")
+	verif.Reach("end")
+}
